@@ -1426,6 +1426,14 @@ func (x *Exec) libFacts(st *State, name string, args, rs []Val) {
 			st.assume(And(Le(IntLit(0), rs[0].T), Le(rs[0].T, IntLit(64))))
 			if name == "math/bits.OnesCount8" {
 				st.assume(Le(rs[0].T, IntLit(8)))
+				if len(args) == 1 && args[0].T.Sort == "(_ BitVec 8)" {
+					// the population count of an 8-bit vector, exactly: the sum of its bits
+					sum := "0"
+					for i := 0; i < 8; i++ {
+						sum = fmt.Sprintf("(+ %s (ite (= ((_ extract %d %d) %s) #b1) 1 0))", sum, i, i, args[0].T.S)
+					}
+					st.assume(Eq(rs[0].T, Term{sum, "Int"}))
+				}
 			}
 		}
 	case "encoding/json.Unmarshal":
